@@ -1028,6 +1028,12 @@ class AnsiString:
                     key == shift
                     and settings.add
                     and self._fmts[key].rem[:len(settings.add)] == settings.add
+                    # The merged settings continue in the order they are active here, so that order
+                    # must be the incoming one or the precedence between them would change
+                    and [
+                        s for s in self.ansi_settings_at(shift - 1)
+                        if __class__._find_setting_reference(s, self._fmts[key].rem[:len(settings.add)]) >= 0
+                    ] == settings.add
                 ):
                     # Special case - the string being added contains same formatting as end of my string.
                     # Because the settings work based on references instead of values, the settings not only
